@@ -174,7 +174,14 @@ class Interp:
             return 0
         if k in ("call", "mcall", "opcall", "ctor", "icall"):
             return self.oracle("call", t, self)
-        if k in ("member", "param", "gvar", "this", "enum", "str", "lambda", "fnref", "method"):
+        if k == "member":
+            # a member this very activation has stored to reads back what was stored
+            key = ("member", t[1], repr(t[2]))
+            for eff in reversed(self.effects):
+                if eff[0] == "store" and eff[1] == key:
+                    return eff[2]
+            return self.oracle(k, t, self)
+        if k in ("param", "gvar", "this", "enum", "str", "lambda", "fnref", "method"):
             return self.oracle(k, t, self)
         raise Unknown("expression kind " + k)
 
